@@ -274,8 +274,8 @@ def fam_double(rng, tier):
 
 def fam_random(rng, count, ops=None, nmax=12):
     """random trees (depth <= 3) and random sequences of API calls ("auto" steps)"""
-    ops = ops or ["requires", "requires", "add", "update", "remove", "sanitize", "bypass",
-                  "keep_only", "keep_between", "query"]
+    ops = (ops or ["requires", "requires", "add", "update", "remove", "sanitize", "bypass",
+                   "keep_only", "keep_between", "query"]) + ["display"]
     out = []
     for _ in range(count):
         njobs = rng.randint(2, nmax)
